@@ -10,8 +10,11 @@ def main():
         from checks import c03, c06
         c03.load_cases("quick")
         c06.load_cases("quick")
-        for f in ("axis", "multi"):
+        for f in ("axis", "multi", "bigaxis", "bigmulti"):
             vlib.tlc_generate("GenSlice", "GenSlice_quick", env={"FAM": f}, key_extra=f)
+        vlib.tlc_generate("GenStack", "GenStack_quick")
+        vlib.tlc_generate("GenBroadcast", "GenBroadcast_quick", env={"FAM": "pairs"}, key_extra="pairs", timeout=1400)
+        vlib.tlc_generate("GenViews", "GenViews_quick", env={"FAM": "reshape"}, key_extra="reshape", timeout=1400)
     except vlib.Inconclusive as e:
         print("setup: generation failed:", str(e)[:2000])
         ok = False
